@@ -249,6 +249,8 @@ struct NetInner {
     syns: BTreeMap<(SocketAddr, SocketAddr, u16), u16>,
     /// connections on which the initiator has sent something other than the SYN
     talked: BTreeSet<(SocketAddr, SocketAddr, u16)>,
+    /// connections whose initiator's first data packet has been *delivered*
+    first_data_seen: BTreeSet<(SocketAddr, SocketAddr, u16)>,
     preds: WirePredicates,
     pub cut: bool,
     cut_dirs: BTreeSet<(SocketAddr, SocketAddr)>,
@@ -256,7 +258,7 @@ struct NetInner {
     /// counted guard suppressions (known findings)
     pub excluded: u64,
     /// optional hook deciding whether a datagram must be protected from faults
-    protect: Option<Box<dyn FnMut(&WireRec, &[WireRec]) -> bool + Send>>,
+    protect: Vec<Box<dyn FnMut(&WireRec, &[WireRec]) -> bool + Send>>,
     pub fates_overridden_by_fairness: u64,
     pub dropped_count: u64,
     pub trace: bool,
@@ -339,12 +341,13 @@ impl Net {
                 drops_by_identity: BTreeMap::new(),
                 syns: BTreeMap::new(),
                 talked: BTreeSet::new(),
+                first_data_seen: BTreeSet::new(),
                 preds: Default::default(),
                 cut: false,
                 cut_dirs: BTreeSet::new(),
                 sends_this_instant: (0, 0),
                 excluded: 0,
-                protect: None,
+                protect: vec![],
                 fates_overridden_by_fairness: 0,
                 dropped_count: 0,
                 trace,
@@ -357,9 +360,10 @@ impl Net {
         (tokio::time::Instant::now() - g.t0).as_micros() as u64
     }
 
-    /// Install a guard: datagrams for which `f` returns true are never faulted (counted).
+    /// Install a guard (several may be installed): datagrams for which any guard returns true are
+    /// never faulted (counted).
     pub fn set_protect(&self, f: impl FnMut(&WireRec, &[WireRec]) -> bool + Send + 'static) {
-        self.inner.lock().protect = Some(Box::new(f));
+        self.inner.lock().protect.push(Box::new(f));
     }
 
     pub fn add_socket(&self, idx: usize, cfg: &SockCfg) -> SimTransport {
@@ -505,12 +509,23 @@ impl Net {
         let lat_ms = if lower_to_higher { g.plan.lat_ms.0 } else { g.plan.lat_ms.1 } as u64;
         let path_mtu = if lower_to_higher { g.plan.path_mtu.0 } else { g.plan.path_mtu.1 };
         let ip_udp = if src.is_ipv4() { 28 } else { 48 };
+        // handshake = SYN, SYN-ACK and the initiator's first data packet (from which the acceptor
+        // learns that the SYN-ACK arrived; `connect` does not retransmit SYNs by design)
+        let mut first_data_key = None;
         let is_handshake = rec.pkt.as_ref().is_some_and(|p| {
             p.ptype == refparse::ST_SYN
                 || (p.ptype == refparse::ST_STATE
                     && g.syns.get(&(dst, src, p.conn_id)) == Some(&p.ack)
-                    && !g.talked.contains(&(dst, src, p.conn_id)))
+                    && !g.first_data_seen.contains(&(dst, src, p.conn_id)))
+                || (p.ptype == refparse::ST_DATA
+                    && g.syns.get(&(src, dst, p.conn_id.wrapping_sub(1))).is_some_and(|s| s.wrapping_add(1) == p.seq)
+                    && !g.first_data_seen.contains(&(src, dst, p.conn_id.wrapping_sub(1))))
         });
+        if let Some(p) = &rec.pkt {
+            if p.ptype == refparse::ST_DATA && g.syns.get(&(src, dst, p.conn_id.wrapping_sub(1))).is_some_and(|s| s.wrapping_add(1) == p.seq) {
+                first_data_key = Some((src, dst, p.conn_id.wrapping_sub(1)));
+            }
+        }
         let mut fate = Fate::Deliver;
         let mut drop_reason: Option<&'static str> = None;
 
@@ -524,11 +539,16 @@ impl Net {
                 fate = g.plan.fates.get(g.fate_cursor).copied().unwrap_or(Fate::Deliver);
                 g.fate_cursor += 1;
                 if fate != Fate::Deliver {
-                    if let Some(p) = g.protect.as_mut() {
+                    let mut protected = false;
+                    for p in g.protect.iter_mut() {
+                        // (every guard sees every faulted datagram so that its incremental state stays current)
                         if p(&rec, &g.log) {
-                            g.excluded += 1;
-                            fate = Fate::Deliver;
+                            protected = true;
                         }
+                    }
+                    if protected {
+                        g.excluded += 1;
+                        fate = Fate::Deliver;
                     }
                 }
                 if let (Fate::Drop, Family::FairLossy { k }) = (fate, g.plan.family) {
@@ -570,6 +590,11 @@ impl Net {
                 rec.disp = Disposition::Dropped("no-route");
             }
         }
+        if let Some(k) = first_data_key {
+            if rec.delivered() {
+                g.first_data_seen.insert(k);
+            }
+        }
         if g.trace {
             println!("{}", rec.line());
         }
@@ -589,11 +614,10 @@ fn identity(rec: &WireRec) -> Vec<u8> {
             v.extend_from_slice(&p.conn_id.to_be_bytes());
             match p.ptype {
                 refparse::ST_STATE | refparse::ST_RESET => {
+                    // coarse identity for pure acknowledgements: (direction, connection, ack_nr).
+                    // Window and SACK content are ignored, which makes the network *fairer* than
+                    // the property requires (a subset of its domain, hence sound).
                     v.extend_from_slice(&p.ack.to_be_bytes());
-                    v.extend_from_slice(&p.wnd.to_be_bytes());
-                    if let Some(s) = p.last_ext(1) {
-                        v.extend_from_slice(s);
-                    }
                 }
                 _ => v.extend_from_slice(&p.seq.to_be_bytes()),
             }
